@@ -134,8 +134,10 @@ def check(P: Project, R: Report) -> None:
             ok = any(l.startswith(f"{pref} in ") and whose_list(l[len(pref) + 4:], st) in ("caller", "library") for l in st.lits)
             why = f"preferred version proposed; membership literal present: {ok}"
         elif first is not None and whose_list(first, st, ordered=True) in ("caller", "library"):
-            ok = True
-            why = "first supported version proposed"
+            # the fallback is for a caller without a usable preference: none given, or one that is not in the list
+            no_pref = {f"not {pref}", f"{pref} is None"} & set(st.lits) or any(l.startswith(f"{pref} not in ") and whose_list(l[len(pref) + 8:], st) in ("caller", "library") for l in st.lits)
+            ok = bool(no_pref)
+            why = "first supported version proposed" + ("" if ok else f" on a path that has not established that the preferred version is missing from the list (literals {sorted(l[:50] for l in st.lits)[:5]}): a preferred version that is in the caller's list is passed over")
         else:
             ok = False
             why = f"proposal `{an.origin(t)[:80]}` is neither the checked preferred version nor supported[0]"
